@@ -243,7 +243,189 @@ func replayPath(inits []gen.ListSpec, all []op, s state) (*sbom.NodeList, []*sbo
 	return cur, lib
 }
 
+// pair histories ---------------------------------------------------------------
+//
+// The single-list search above never mutates an argument after it was used. Here the state is a
+// tuple of live lists (two slots + two constant lists) and every operation may take either slot as
+// receiver and the other as argument, so lists that were combined earlier keep being edited. States
+// are NOT de-duplicated: two tuples with the same contents may share memory differently and have
+// different futures. After every step every list of the tuple must be well-formed.
+
+var pairLib = []gen.ListSpec{
+	{Nodes: []string{"a"}, Roots: []string{"a"}},
+	{Nodes: []string{"a", "b"}, Edges: []gen.EdgeSpec{{From: "a", Type: tc, To: []string{"b"}}}, Roots: []string{"a"}},
+	{Nodes: []string{"b", "c"}, Edges: []gen.EdgeSpec{{From: "b", Type: td, To: []string{"c"}}}, Roots: []string{"b", "c"}},
+	{Nodes: []string{"c", "d"}, Roots: []string{"c", "d"}},
+	{Nodes: []string{"a", "b", "c"}, Edges: []gen.EdgeSpec{{From: "a", Type: tc, To: []string{"b", "c"}}}, Roots: []string{"a", "b", "c"}},
+	{Nodes: []string{"b", "c", "d"}, Edges: []gen.EdgeSpec{{From: "d", Type: tc, To: []string{"b"}}}, Roots: []string{"b", "c", "d"}},
+}
+
+var pairConst = []gen.ListSpec{
+	{Nodes: []string{"e"}, Roots: []string{"e"}},
+	{Nodes: []string{"d", "e"}, Edges: []gen.EdgeSpec{{From: "d", Type: tc, To: []string{"e"}}}, Roots: []string{"d", "e"}},
+}
+
+// grown builds a list whose slices were grown by appends (spare capacity), as lists built through the API are.
+func grown(s gen.ListSpec) *sbom.NodeList {
+	src := build(s)
+	nl := &sbom.NodeList{}
+	for _, n := range src.Nodes {
+		nl.Nodes = append(nl.Nodes, n)
+	}
+	for _, e := range src.Edges {
+		ne := &sbom.Edge{From: e.From, Type: e.Type}
+		for _, t := range e.To {
+			ne.To = append(ne.To, t)
+		}
+		nl.Edges = append(nl.Edges, ne)
+	}
+	for _, r := range src.RootElements {
+		nl.RootElements = append(nl.RootElements, r)
+	}
+	return nl
+}
+
+type tuple struct {
+	slot [2]*sbom.NodeList
+	cst  []*sbom.NodeList
+}
+
+type pairOp struct {
+	Name string
+	Do   func(tp *tuple)
+}
+
+func pairOps() []pairOp {
+	var out []pairOp
+	add := func(n string, f func(tp *tuple)) { out = append(out, pairOp{n, f}) }
+	for r := 0; r < 2; r++ {
+		r := r
+		o := 1 - r
+		R := fmt.Sprintf("L%d", r)
+		O := fmt.Sprintf("L%d", o)
+		add(R+".Add("+O+")", func(tp *tuple) { tp.slot[r].Add(tp.slot[o]) })
+		for k := range pairConst {
+			k := k
+			add(fmt.Sprintf("%s.Add(K%d)", R, k), func(tp *tuple) { tp.slot[r].Add(tp.cst[k]) })
+		}
+		for _, at := range []string{"a", "b", "c", "d"} {
+			for _, ty := range []sbom.Edge_Type{tc, td} {
+				at, ty := at, ty
+				add(fmt.Sprintf("%s.RelateNodeListAtID(%s,%s,%s)", R, O, at, ty), func(tp *tuple) { _ = tp.slot[r].RelateNodeListAtID(tp.slot[o], at, ty) })
+			}
+		}
+		for k := range pairConst {
+			for _, at := range []string{"a", "c"} {
+				k, at := k, at
+				add(fmt.Sprintf("%s.RelateNodeListAtID(K%d,%s,contains)", R, k, at), func(tp *tuple) { _ = tp.slot[r].RelateNodeListAtID(tp.cst[k], at, tc) })
+			}
+		}
+		for _, ids := range [][]string{{"a"}, {"b"}, {"c"}, {"d"}, {"e"}, {"b", "c"}, {"a", "d"}} {
+			ids := ids
+			add(fmt.Sprintf("%s.RemoveNodes(%s)", R, strings.Join(ids, ",")), func(tp *tuple) { tp.slot[r].RemoveNodes(ids) })
+		}
+		add(R+"="+R+".Union("+O+")", func(tp *tuple) { tp.slot[r] = tp.slot[r].Union(tp.slot[o]) })
+		add(R+"="+R+".Intersect("+O+")", func(tp *tuple) { tp.slot[r] = tp.slot[r].Intersect(tp.slot[o]) })
+		for _, at := range []string{"a", "b"} {
+			at := at
+			add(fmt.Sprintf("%s=%s.NodeGraph(%s)", R, R, at), func(tp *tuple) {
+				if g := tp.slot[r].NodeGraph(at); g != nil {
+					tp.slot[r] = g
+				}
+			})
+			add(fmt.Sprintf("%s.RelateNodeAtID(f,%s,contains)", R, at), func(tp *tuple) {
+				_ = tp.slot[r].RelateNodeAtID(&sbom.Node{Id: "f", Name: "n-f"}, at, tc)
+			})
+		}
+	}
+	return out
+}
+
+func pairHistories(c *engine.Ctx) {
+	c.Group("pair-histories")
+	all := pairOps()
+	depth := 3
+	if c.Thorough() {
+		depth = 4
+	}
+	c.Bound("pair-histories", fmt.Sprintf("every ordered pair of %d lists (append-grown slices) as two live slots + %d constant lists; every history of <=%d operations over %d (either slot as receiver, the other or a constant as argument); no de-duplication; every list of the tuple well-formed after every step", len(pairLib), len(pairConst), depth, len(all)))
+	mk := func(i, j int) *tuple {
+		tp := &tuple{}
+		tp.slot[0], tp.slot[1] = grown(pairLib[i]), grown(pairLib[j])
+		for _, k := range pairConst {
+			tp.cst = append(tp.cst, grown(k))
+		}
+		return tp
+	}
+	check := func(tp *tuple) string {
+		for i, l := range []*sbom.NodeList{tp.slot[0], tp.slot[1], tp.cst[0], tp.cst[1]} {
+			if l == nil {
+				continue
+			}
+			for _, n := range l.Nodes {
+				if n == nil {
+					return fmt.Sprintf("list %d holds a nil node", i)
+				}
+			}
+			if w := gen.WellFormed(l); w != "" {
+				return fmt.Sprintf("%s %s is not well-formed: %s", []string{"L0", "L1", "K0", "K1"}[i], gen.CanonKey(l), w)
+			}
+		}
+		return ""
+	}
+	for i := range pairLib {
+		for j := range pairLib {
+			var rec func(path []int)
+			rec = func(path []int) {
+				if c.Expired() {
+					c.Cap("deadline in pair-histories")
+					return
+				}
+				if len(path) > 0 {
+					p := append([]int{}, path...)
+					i, j := i, j
+					c.Case(func() any {
+						var names []string
+						for _, oi := range p {
+							names = append(names, all[oi].Name)
+						}
+						return map[string]any{"L0": pairLib[i].String(), "L1": pairLib[j].String(), "history": names}
+					}, func(t *engine.T) *engine.Violation {
+						tp := mk(i, j)
+						for k, oi := range p {
+							if k == len(p)-1 {
+								// the prefix is a case of its own: if it already broke a list it is reported there
+								if check(tp) != "" {
+									t.Outcome("prefix-already-reported")
+									return nil
+								}
+							}
+							all[oi].Do(tp)
+						}
+						t.Transitions(len(p))
+						t.Validated(1)
+						if w := check(tp); w != "" {
+							return engine.Violate("wellformed", "history", "after %s: %s", all[p[len(p)-1]].Name, w)
+						}
+						t.State(fmt.Sprint("pair", i, j, p))
+						t.Outcome(fmt.Sprintf("pair-history-%d", len(p)))
+						return nil
+					})
+				}
+				if len(path) == depth {
+					return
+				}
+				for oi := range all {
+					rec(append(path, oi))
+				}
+			}
+			rec(nil)
+		}
+	}
+}
+
 func Run(c *engine.Ctx) {
+	pairHistories(c)
 	all := ops()
 	inits := initials(c.Thorough())
 	depth := 2
